@@ -381,6 +381,22 @@ func canonOverlay(roots []*packages.Package, ren map[types.Object]string) (map[s
 			if o == nil {
 				return
 			}
+			// an embedded field is named after its type: it follows the type's rename
+			if v, isVar := o.(*types.Var); isVar && v.Embedded() {
+				t := v.Type()
+				if pt, isP := t.(*types.Pointer); isP {
+					t = pt.Elem()
+				}
+				if nt, isN := t.(*types.Named); isN {
+					if nn, ok := ren[nt.Obj()]; ok && id.Name != nn {
+						id.Name = nn
+						if f := fileOf(id.Pos()); f != nil {
+							changed[f] = pk
+						}
+					}
+				}
+				return
+			}
 			if nn, ok := ren[origin(o)]; ok && id.Name != nn {
 				id.Name = nn
 				if f := fileOf(id.Pos()); f != nil {
